@@ -391,3 +391,29 @@ class parse_table_group:
     def ensures_items_in_order(s, loc, tok, result):
         return len(result.items) == (len(tok['items']) if 'items' in tok else 0) and \
             ('items' not in tok or all(result.items[i] == tok['items'][i] for i in range(len(tok['items']))))
+
+
+@contract('pydbml.definitions.project:parse_project')
+class parse_project:
+    """Project name { field: 'value' ... Note ... }: the fields in order of first occurrence with the value of the last
+    occurrence of each key, the last note, the comment above."""
+    properties = ('C01', 'C14')
+    params = {'s': 'str', 'loc': 'int',
+              'tok': "PR(name:str, items?:List[Union[NoteBlueprint,List[str]]], comment_before?:List[List[str]])"}
+    ret = 'ProjectBlueprint'
+
+    def requires_shapes(s, loc, tok):
+        return (('comment_before' not in tok or all(len(c) >= 1 for c in tok['comment_before']))
+                and ('items' not in tok or all(isinstance(x, NoteBlueprint) or len(x) == 2 for x in tok['items'])))
+
+    def ensures_fields(s, loc, tok, result):
+        return (fresh(result) and result.name == tok['name']
+                and result.comment == (above(tok) if 'comment_before' in tok else None))
+
+    def ensures_note(s, loc, tok, result):
+        return ((result.note is None) == ('items' not in tok or not any(isinstance(x, NoteBlueprint) for x in tok['items']))
+                and (result.note is None or any(x is result.note for x in tok['items'])))
+
+    def ensures_items(s, loc, tok, result):
+        return ((result.items is None) == ('items' not in tok or all(isinstance(x, NoteBlueprint) for x in tok['items']))
+                and (result.items is None or all(isinstance(x, NoteBlueprint) or (x[0] in result.items) for x in tok['items'])))
